@@ -80,6 +80,29 @@ theorem C10_dropped_stays (st : PState) (h : PInv st) (m : String)
     · simp only [step10, reopened]; split <;> split <;> simp [stepFails]
     · simp [step10, stepFails]
 
+/-- **dropping a measurement that has data removes its field schema** (in every
+    reachable state), so its fields can be re-created with other types -/
+theorem C10_drop_removes_schema (ops : List Op10) (m : String)
+    (h : ∃ e ∈ (run {} ops).data, e.1.1 = m) : hasMeas (pDrop (run {} ops) m).mem m = false := by
+  have hI := run_inv {} pinv_init ops
+  obtain ⟨e, he, hem⟩ := h
+  have happ : dropApplies (run {} ops) m = true := by
+    unfold dropApplies
+    have h1 := hI.seriesOK e he
+    rw [hem] at h1
+    have h2 : (run {} ops).data.isEmpty = false := by
+      cases hdd : (run {} ops).data with
+      | nil => rw [hdd] at he; cases he
+      | cons _ _ => rfl
+    rw [h1, h2]; rfl
+  have hmem : (pDrop (run {} ops) m).mem = dropMeas (run {} ops).mem m := by
+    unfold pDrop; simp [happ, appendLog]
+  rw [hmem]
+  apply hasMeas_false_of_lookup _ (nd_dropMeas _ _ hI.ndMem) m
+  intro k t hk hkm
+  rw [lookup_dropMeas] at hk
+  simp [hkm] at hk
+
 /-- **two writers racing on a new field** (`LoadOrStore` is one atomic step): in
     either order, the first creator's type is recorded and the other creator sees
     that type — a conflict iff it asked for another one. -/
